@@ -961,12 +961,26 @@ class Drivers(Sub):
                 opt = pp.optim.LM(model, strategy=strat, reject=int(case["reject"]))
             sched = StopOnPlateau(opt, steps=steps, patience=patience, decreasing=thr)
         trace, orig = [], opt.step
+        # "the optimizer's last step involved a rejection" is observed independently of the optimizer's own bookkeeping: the linear
+        # solver is wrapped and counts the trials of every step (a step with >= 2 solves rejected at least one trial).  A change
+        # on the OPTIMIZER side that hides a rejection from the scheduler (reject_count reset on acceptance) is then visible.
+        ntr = {"n": 0}
+        if case["opt"] != "GN" and hasattr(opt, "solver"):
+            inner_solver = opt.solver
+
+            class _Count(torch.nn.Module):
+                def forward(self_, A, b):
+                    ntr["n"] += 1
+                    return inner_solver(A, b)
+            opt.solver = _Count()
 
         def counted(*a, **kw):
             if len(trace) > steps + 3:
                 raise _Overrun()
+            n0 = ntr["n"]
             r = orig(*a, **kw)
-            trace.append((float(opt.last), float(opt.loss), int(getattr(opt, "reject_count", 0) or 0)))
+            rejected = max(int(getattr(opt, "reject_count", 0) or 0), ntr["n"] - n0 - 1)
+            trace.append((float(opt.last), float(opt.loss), rejected))
             return r
         opt.step = counted
         over = False
